@@ -718,7 +718,7 @@ func genBatch(prop string, g *Gen, m *Model, rng *SplitMix) []Cmd {
 	case "C13":
 		nw := 1 + rng.Intn(2)
 		for i := 0; i < nw; i++ {
-			switch rng.Intn(8) {
+			switch rng.Intn(6) {
 			case 0:
 				cmds = append(cmds, Cmd{Op: "compact"})
 			case 1:
@@ -930,7 +930,7 @@ func runConcSample(bin, prop string, seed uint64, thorough bool) *RunReport {
 	g.W["list"], g.W["show"], g.W["where"], g.W["prune_dry"], g.W["init"], g.W["file"] = 0, 0, 0, 0, 0, 1
 	g.W["new_task"] = 30
 	sc.Config.Clock = []string{"fine", "coarse", "second", "fine"}[rng.Intn(4)]
-	if (prop == "C13" || prop == "C02") && rng.Chance(1, 4) {
+	if (prop == "C13" || prop == "C02") && rng.Chance(1, 3) {
 		sc.Config.Layout = "legacy" // a store that still uses events.jsonl
 	}
 	if prop == "C13" || prop == "C02" {
